@@ -105,7 +105,7 @@ def main(argv):
         # ---- E1: all well-formed abstract streams
         dump = os.path.join(d, "mc.dump")
         maxn = 4 if quick else 5
-        r = tlc.run("ByteCFG", CFG, {"MODE": "mc", "MAXN": str(maxn), "CASES": ""}, workers=1, timeout=6000, heap="6g", extra=["-dump", dump], tag="bytecfg-mc")
+        r = tlc.run("ByteCFG", CFG, {"MODE": "mc", "MAXN": str(maxn), "CASES": ""}, workers=1, timeout=6000, heap="6g", extra=["-dump", dump, "-maxSetSize", "4000000"], tag="bytecfg-mc")
         if r.error:
             raise tlc.MachineryError("ByteCFG MC: " + r.error[:2000])
         states += r.distinct
